@@ -686,6 +686,9 @@ theorem silent_link_never_succeeds (h : Host) (op : Op) (hs : Starved h) (ht : t
   | kpWriteKeyStore d => exact dataOutCmd_starved h _ _ _ hs
   | kpReadKeyStore => exact dataInCmd_starved h _ _ _ hs
   | reset r => exact absurd ht id
+  | logCmd t ps => exact simpleCmd_starved h _ _ hs
+  | fuseProgram a d m => exact dataOutCmd_starved h _ _ _ hs
+  | fuseRead a n m => exact dataInCmd_starved h _ _ _ hs
 
 /-! ### status codes are mirrored; success needs a SUCCESS response -/
 
